@@ -282,12 +282,16 @@ func unitConfigRace(r *lib.Run, px *proxy.Proxy, n int) {
 	backend.stall = stallFn(r.Rng(fmt.Sprintf("u1s-%d", n)), &smu)
 	fx := proxy.VerifC24New(px, client, prof(n))
 	sc := fx.AddServerConn("one", backend)
-	// the connection is in flight before the client can be in configuration at all
-	// (setInFlightConnection precedes the dial); the monitor does not construct the
-	// schedule "read loop preempted between resolving the target and taking the lock for a
-	// whole backend login"
-	inflightEarly := true
-	fx.SetInFlight(sc)
+	// In half of the histories the connection is in flight before the first message; in the
+	// other half the second goroutine makes it the in-flight connection right before the flush
+	// (the real order: setInFlightConnection, dial, backend login, flush - compressed), so that
+	// the read loop can have looked up "no connection yet" for a message it is still handling
+	// when the flush runs. (Seen on the live proxy under load: the first configuration message
+	// of a session stranded in the queue behind a flush that was already over.)
+	inflightEarly := u.rng.Intn(2) == 0
+	if inflightEarly {
+		fx.SetInFlight(sc)
+	}
 	fx.InstallConfigHandler()
 	total := 2 + u.rng.Intn(40)
 	flushAfter := u.rng.Intn(total + 1)
@@ -300,6 +304,9 @@ func unitConfigRace(r *lib.Run, px *proxy.Proxy, n int) {
 	go func() { // the backend's read loop: login success -> flush
 		defer wg.Done()
 		<-sig
+		if !inflightEarly {
+			fx.SetInFlight(sc)
+		}
 		flushErr = fx.ConfigFlushTo(sc)
 	}()
 	for i := 0; i < total; i++ {
@@ -490,7 +497,7 @@ func unitPreJoin(r *lib.Run, px *proxy.Proxy, n int) {
 func unitWorkload(r *lib.Run) {
 	px := unitProxy(r)
 	n := 0
-	races := r.N(1500, 60000)
+	races := r.N(1200, 40000)
 	for i := 0; i < races; i++ {
 		n++
 		k := n
@@ -498,7 +505,7 @@ func unitWorkload(r *lib.Run) {
 			r.Inconclusive(fmt.Sprintf("unit config race %d did not return (panic=%v)", k, pv))
 		}
 	}
-	pre := r.N(300, 10000)
+	pre := r.N(300, 8000)
 	for i := 0; i < pre; i++ {
 		n++
 		k := n
